@@ -973,12 +973,15 @@ class ComboWorld:
         elif k == 'ad':
             d = self.data[op[1]]
             lbl = 'v%i' % len(self.cids)
-            if isinstance(d, RegionData):
-                # `RegionData.__setitem__` / `add_component` cannot take a ComponentLink (it iterates
-                # over it looking for shapely geometries: TypeError; outside C18, see design.md)
-                d.add_component_link(d.pixel_component_ids[0] + 1, lbl)
-            else:
+            try:
                 d[lbl] = d.pixel_component_ids[0] + 1
+            except TypeError:
+                # without fix C18d `RegionData.add_component` (hence `__setitem__`) cannot take a
+                # ComponentLink: it iterates over it looking for shapely geometries.  Not a picker
+                # matter: the derived component is then added through `add_component_link`
+                if not isinstance(d, RegionData):
+                    raise
+                d.add_component_link(d.pixel_component_ids[0] + 1, lbl)
             self._reg(d.id[lbl])
         elif k == 'rc':
             d = self.data[op[1]]
@@ -1257,9 +1260,10 @@ class Combo(Family):
             t = ('std', 'ext1', 'dask')[j % 3]
             yield [[t], idxs[k % 5], [['ha', 0]] + flag_ops(combo) + [['ac', 0, 'ext'], ['ro', 0], ['ac', 0, 'dask']]]
             k += 1
-        # histories over the core alphabet on every non-standard template (dataset 1: the next one)
+        # histories over the core alphabet on the templates with an extended / dask component (dataset 1:
+        # the next template; thorough: on every non-standard template)
         for i, t in enumerate(TMPLS):
-            if t == 'std':
+            if t == 'std' or (tier == "quick" and t in ('drv', 'bare')):
                 continue
             tm = [t, TMPLS[(i + 1) % len(TMPLS)]]
             for seq in itertools.product(COMBO_TCORE, repeat=2 if tier == "quick" else 3):
